@@ -586,8 +586,12 @@ PARTS = {
                      "array of exactly `cap` elements inside canaries; arbitrary block streams with capacities around the "
                      "announced counts",
                 configs_quick=["pinned", "O0", "native"], configs_thorough=CFG_T),
-    "C16": dict(coq_props=["Properties_C16_bp128"], files=FILES, generate=generate_C16, oracles=ORACLES_C16,
-                classify=classify, search=search, assumptions=ASSUME,
+    "C16": dict(coq_props=["Properties_C16_bp128", "Properties_C16_bp128_src"], files=FILES, generate=generate_C16,
+                oracles=ORACLES_C16, classify=classify, search=search, assumptions=ASSUME,
+                trusted_base=["gen/c2coq.py + CSem.v for the *_src theorems (C-to-Gallina translator, clang 14 typed AST "
+                              "-> coq/gen/Src_leaf_bp128.v via gen/c2coq_leaf.py: varintBP128BitsNeeded32/64 regenerated "
+                              "from the current source on every run; subset and assumptions in the translator's "
+                              "docstring); the renderings are tied to the compiled C by the translator, not by proof"],
                 rule="bp128: meta (count, blockCount, encodedBytes, lastBlockSize, maxBitWidth) of the four encoders and "
                      "varintBP128GetCount (Encode64 layout) for every length 1..299 and the C02 array families; the meta "
                      "struct is pre-filled with 0xEE so an unwritten field shows",
